@@ -274,7 +274,15 @@ fn here_payload(n: u32, s: u64) -> Vec<u8> {
 }
 
 /// (script, expected stdout or None when only liveness is required)
+/// The program and its expected stdout; every program ends with `fds`: the
+/// shell finishes with the descriptors it began with.
 pub fn render(c: &Case) -> (String, Option<String>) {
+    let (mut script, expected) = render_body(c);
+    script.push_str("fds\n");
+    (script, expected.map(|e| e + "fds: 0 1 2\n"))
+}
+
+fn render_body(c: &Case) -> (String, Option<String>) {
     match &c.kind {
         Kind::Pipe {
             n,
@@ -583,7 +591,7 @@ fn check_run(c: &Case, expected: &Option<String>, obs: &Observed) -> Option<(Str
                     got = (got.0 + f("len="), got.1 + f("sum="), got.2 + f("sq="));
                     lines += 1;
                 }
-                if lines != 2 || got != want || !obs.stdout.ends_with("?=0\n") || obs.status != "exited:0" || !obs.stderr.is_empty() {
+                if lines != 2 || got != want || !obs.stdout.ends_with("?=0\nfds: 0 1 2\n") || obs.status != "exited:0" || !obs.stderr.is_empty() {
                     return Some((
                         "data".into(),
                         "data:two-readers".into(),
@@ -605,7 +613,7 @@ fn check_run(c: &Case, expected: &Option<String>, obs: &Observed) -> Option<(Str
                 if !ok_bad
                     || len < *limit as i64
                     || len >= (*limit + *buf) as i64
-                    || !obs.stdout.ends_with("done\n")
+                    || !obs.stdout.ends_with("done\nfds: 0 1 2\n")
                 {
                     return Some((
                         "data".into(),
